@@ -379,6 +379,83 @@ def fstep1 (cfg : FCfg) (s : FSt) (op : FOp) : FSt := fstep cfg { s with evs := 
 def frun (cfg : FCfg) (s : FSt) (ops : List FOp) : List FSt := Frappy.Scan.scan (fstep1 cfg) s ops
 def fexec (cfg : FCfg) (s : FSt) (ops : List FOp) : FSt := ops.foldl (fstep1 cfg) s
 
+/-! ### the `labels` argument (FloatEnumParam.__init__, extparams.py:226-263)
+
+    nextidx = 0; edict = {}; vdict = {}
+    for elem in labels:
+        if isinstance(elem, str): idx, label = nextidx, elem
+        else:
+            if isinstance(elem[0], str): elem = [nextidx] + list(elem)
+            idx, label, *tail = elem
+            if tail: vdict[idx], = tail
+        edict[label] = idx; nextidx = idx + 1
+    for label, idx in edict.items():
+        if idx not in vdict: vdict[idx] = <the number the label text stands for>   # else ProgrammingError
+    enumtype = EnumType(**edict)                                                   # two names for one index: ProgrammingError
+    datatype = FloatRange(min(vdict.values()), max(vdict.values()))
+-/
+
+/-- one element of `labels`: a bare label or a tuple `([index], label, [value])`; `derived` = the number the label text
+stands for (`'20mV'` → 0.02; `none`: it has not the form `<float><prefix><unit>`) — the text conversion is an oracle -/
+structure LabelSpec where
+  idx : Option Int
+  label : String
+  value : Option Val
+  derived : Option Val
+  deriving Repr, DecidableEq, Inhabited
+
+/-- Python `d[k] = v` on insertion-ordered dicts with these key types -/
+def setI : List (Int × Val) → Int → Val → List (Int × Val)
+  | [], k, v => [(k, v)]
+  | (k', x) :: t, k, v => if k' = k then (k', v) :: t else (k', x) :: setI t k v
+
+def setS : List (String × Int) → String → Int → List (String × Int)
+  | [], k, v => [(k, v)]
+  | (k', x) :: t, k, v => if k' = k then (k', v) :: t else (k', x) :: setS t k v
+
+/-- the first loop: `edict` and the explicitly given values -/
+def collectLabels : List LabelSpec → Int → List (String × Int) → List (Int × Val) → List (String × Int) × List (Int × Val)
+  | [], _, ed, vd => (ed, vd)
+  | e :: es, next, ed, vd =>
+    let i := e.idx.getD next
+    collectLabels es (i + 1) (setS ed e.label i) (match e.value with | some v => setI vd i v | none => vd)
+
+/-- the second loop: values of the indices that have none yet, from the label text -/
+def fillValues (derive : String → Option Val) : List (String × Int) → List (Int × Val) → Option (List (Int × Val))
+  | [], vd => some vd
+  | (lab, i) :: rest, vd =>
+    if (vd.lookup i).isSome then fillValues derive rest vd
+    else match derive lab with
+      | none => none
+      | some v => fillValues derive rest (setI vd i v)
+
+def minVal : List (Int × Val) → Val → Val
+  | [], m => m
+  | c :: cs, m => minVal cs (if c.2 < m then c.2 else m)
+
+def maxVal : List (Int × Val) → Val → Val
+  | [], m => m
+  | c :: cs, m => maxVal cs (if m < c.2 then c.2 else m)
+
+structure ParsedLabels where
+  edict : List (String × Int)      -- label ↦ index (the members of the enum)
+  vdict : List (Int × Val)         -- index ↦ value, in `valuedict` order
+  lo : Val
+  hi : Val
+  deriving Repr, DecidableEq, Inhabited
+
+/-- `FloatEnumParam.__init__` up to the datatypes; `none` = it raises -/
+def parseLabels (specs : List LabelSpec) : Option ParsedLabels :=
+  let (ed, vd0) := collectLabels specs 0 [] []
+  let derive := fun lab => (specs.find? (fun e => e.label == lab)).bind (·.derived)
+  match fillValues derive ed vd0 with
+  | none => none
+  | some vd =>
+    if !(ed.map Prod.snd).Nodup then none          -- EnumType: `b=0 conflicts with a=0`
+    else match vd with
+      | [] => none                                 -- no labels at all: `min()` of an empty sequence
+      | c :: cs => some { edict := ed, vdict := vd, lo := minVal cs c.2, hi := maxVal cs c.2 }
+
 /-! ## Limit parameters (params.py:555-580, modulebase.py:156-200, 885-910, datatypes.py:1252-1265; repaired code)
 
     HasAccessibles.__init_subclass__ (for every class `cls` of the hierarchy, when it is created):
